@@ -115,7 +115,9 @@ fn main() {
                     if !(d <= tol) {
                         let class = if back.iter().chain(y.iter()).any(|c| !c.is_finite()) {
                             "nonfinite"
-                        } else if (ok_family(a) || ok_family(b)) && d <= 1e-7 * a.scale() + judge::sensitivity(b, a, &ym, judge::K * judge::U64, 3e-3) {
+                        } else if (ok_family(a) || ok_family(b)) && d <= 5e-6 * a.scale() {
+                            // a round trip uses one matrix pair in both directions; what is left of the recorded finding here is
+                            // the 1e-6 residue of the published direct sRGB <-> Oklab pair (largest seen: 1.1e-6)
                             "oklab_xyz_matrix_white_mismatch"
                         } else if d > 1e3 * tol {
                             "gross"
@@ -197,7 +199,7 @@ fn main() {
                         if !(d <= tol) {
                             let class = if direct.iter().chain(step.iter()).any(|c| !c.is_finite()) {
                                 "nonfinite"
-                            } else if (ok_family(a) || ok_family(b) || ok_family(mspace)) && d <= 1e-7 * b.scale() + judge::sensitivity(a, b, &x, judge::K * judge::U64, 3e-3) + judge::sensitivity(mspace, b, &mm, judge::K * judge::U64, 3e-3) {
+                            } else if (ok_family(a) || ok_family(b) || ok_family(mspace)) && d <= 1e-7 * b.scale() + judge::sensitivity(a, b, &x, judge::K * judge::U64, 5e-4) + judge::sensitivity(mspace, b, &mm, judge::K * judge::U64, 5e-4) {
                                 "oklab_xyz_matrix_white_mismatch"
                             } else if d > 1e3 * tol {
                                 "gross"
